@@ -28,7 +28,7 @@ EXPLANATION = (
     "knows which carbon carries the oxygen), and the error string must never be returned for a genuine group."
 )
 BOUNDS = ["n <= 6 atoms on the quick tier, n <= 8 on the thorough tier (dispatch harness: n <= 5 / 6), three distinct symbolic indices, all 6 orders of the index list; one group per call; dispatch: one functional group out of {enol, hemiketal, phenol, ketone, enol_ether, acetal} reported by the query, the same molecule standardised twice on one instance"]
-STUBS = ["FGQuery.get -> one solver-chosen group with solver-chosen atom indices, a fresh list per call; CanonSmiles -> identity on SMILES, raises on an error text", "Chem.MolFromSmiles -> fake molecule with symbolic numbering; Chem.EditableMol -> edit recorder; SanitizeMol -> no-op; MolToSmiles -> marker string"]
+STUBS = ["FGQuery.get -> one solver-chosen group with solver-chosen atom indices, a fresh list per call; CanonSmiles -> identity on SMILES, raises on an error text", "Chem.MolFromSmiles -> fake molecule with symbolic numbering and the bonds of the group (GetAtomWithIdx, GetBondBetweenAtoms); Chem.EditableMol -> edit recorder; SanitizeMol -> no-op; MolToSmiles -> marker string"]
 OUTSIDE = ["composition and charge conservation, parsability of the result, idempotence, charged species, several groups on one carbon, hemiketals with an ether oxygen (RDKit bond editing / sanitisation)"]
 ASSUMPTIONS = STUBS
 
@@ -48,11 +48,19 @@ class _Atom:
 
 
 class _Mol:
-    def __init__(self, n, syms):
+    def __init__(self, n, syms, bonds=()):
         self.atoms = [_Atom(syms.get(i, "C")) for i in range(n)]
+        self.bonds = [(a, b) if a <= b else (b, a) for a, b in bonds]
 
     def GetAtomWithIdx(self, i):
         return self.atoms[i]
+
+    def GetBondBetweenAtoms(self, i, j):
+        k = (i, j) if i <= j else (j, i)
+        for b in self.bonds:
+            if b == k:
+                return b
+        return None
 
 
 class _EMol:
@@ -130,7 +138,7 @@ def h_enol(n: int, c1: int, c2: int, o: int, perm: int) -> bool:
     if n > PART.get("nmax", 8):
         return True
     # c2 carries the oxygen: C1=C2-O
-    _CUR["mol"] = _Mol(n, {o: "O"})
+    _CUR["mol"] = _Mol(n, {o: "O"}, bonds=[(c1, c2), (c2, o)])
     _CUR["emol"] = None
     roles = [c1, c2, o]
     idx = [roles[i] for i in PERMS[perm]]
@@ -164,7 +172,7 @@ def h_hemiketal(n: int, c: int, oa: int, ob: int, perm: int) -> bool:
     perm = PART.get("perm", perm)
     if n > PART.get("nmax", 8):
         return True
-    mol = _Mol(n, {oa: "O", ob: "O"})
+    mol = _Mol(n, {oa: "O", ob: "O"}, bonds=[(c, oa), (c, ob)])
     _CUR["mol"] = mol
     _CUR["emol"] = None
     roles = [c, oa, ob]
@@ -211,11 +219,11 @@ def h_call(g: int, n: int, a: int, b: int, c: int, perm: int) -> bool:
         return True
     name = GROUPS[g]
     if name == "hemiketal":
-        mol = _Mol(n, {b: "O", c: "O"})
+        mol = _Mol(n, {b: "O", c: "O"}, bonds=[(a, b), (a, c)])
     else:
-        mol = _Mol(n, {c: "O"})
+        mol = _Mol(n, {c: "O"}, bonds=[(a, b), (b, c)])
         # keep the enol outside the known index-distance region: the oxygen-bearing carbon b is adjacent to o
-        if name == "enol" and not (abs(b - c) == 1 and abs(a - c) != 1):
+        if name == "enol" and kf.active(KF_ENOL) and not (abs(b - c) == 1 and abs(a - c) != 1):
             return True
     _CUR["mol"] = mol
     roles = [a, b, c]
